@@ -47,28 +47,50 @@ type HeapSys[T comparable] struct {
 	N      int
 	Bulk   [][]int // bulk argument tuples (universe indices), heap only
 	JSONs  [][]int // FromJSON arrays (universe indices)
+	// JSONTexts: raw inputs (null entries, objects with omitted fields) whose denotation is fixed by
+	// decoding them into a fresh []T
+	JSONTexts []string
+	// Custom overrides construction (default constructors New[T cmp.Ordered]()).
+	Custom func(b *heapBox[T])
+	Label  string
+	// Skew > 0 (deep mode for large heaps): at most Skew elements that precede the comparator-greatest
+	// universe element are alive at a time; single pushes and bulk patterns that would exceed it are
+	// not offered.  The reachable arrays are "all greatest, a few small ones near the top", which keeps
+	// the state space linear in the size while bulk pushes of small values onto a big heap — where the
+	// heapify / sift bounds matter — stay in the alphabet.
+	Skew int
 }
 
-func (s *HeapSys[T]) Name() string    { return s.Kind + "/" + s.CmpN }
+func (s *HeapSys[T]) Name() string    { return s.Kind + "/" + s.CmpN + s.Label }
 func (s *HeapSys[T]) Props() []string { return []string{"C06", "C15", "C16"} }
 func (s *HeapSys[T]) New() Inst       { return s.newBox() }
 func (s *HeapSys[T]) newBox() *heapBox[T] {
 	b := &heapBox[T]{sys: s}
+	if s.Custom != nil {
+		s.Custom(b)
+		return b
+	}
 	switch s.Kind {
 	case "binaryheap":
-		c := binaryheap.NewWith[T](s.Cmp)
-		b.a = &heapAPI[T]{obj: c, name: "BinaryHeap", push: c.Push, bulk: true, pop: c.Pop, peek: c.Peek, size: c.Size, empty: c.Empty,
-			clear: c.Clear, values: c.Values, str: c.String, from: c.FromJSON, pushN: "Push", popN: "Pop",
-			iter: func() *IterDyn { return idxIterRev[T](c.Iterator()) }}
+		b.a = wrapHeap(binaryheap.NewWith[T](s.Cmp))
 	case "priorityqueue":
-		c := priorityqueue.NewWith[T](s.Cmp)
-		b.a = &heapAPI[T]{obj: c, name: "PriorityQueue", push: func(v ...T) { c.Enqueue(v[0]) }, pop: c.Dequeue, peek: c.Peek, size: c.Size, empty: c.Empty,
-			clear: c.Clear, values: c.Values, str: c.String, from: c.FromJSON, pushN: "Enqueue", popN: "Dequeue",
-			iter: func() *IterDyn { return idxIterRev[T](c.Iterator()) }}
+		b.a = wrapPQ(priorityqueue.NewWith[T](s.Cmp))
 	default:
 		panic("heap kind " + s.Kind)
 	}
 	return b
+}
+
+func wrapHeap[T comparable](c *binaryheap.Heap[T]) *heapAPI[T] {
+	return &heapAPI[T]{obj: c, name: "BinaryHeap", push: c.Push, bulk: true, pop: c.Pop, peek: c.Peek, size: c.Size, empty: c.Empty,
+		clear: c.Clear, values: c.Values, str: c.String, from: c.FromJSON, pushN: "Push", popN: "Pop",
+		iter: func() *IterDyn { return idxIterRev[T](c.Iterator()) }}
+}
+
+func wrapPQ[T comparable](c *priorityqueue.Queue[T]) *heapAPI[T] {
+	return &heapAPI[T]{obj: c, name: "PriorityQueue", push: func(v ...T) { c.Enqueue(v[0]) }, pop: c.Dequeue, peek: c.Peek, size: c.Size, empty: c.Empty,
+		clear: c.Clear, values: c.Values, str: c.String, from: c.FromJSON, pushN: "Enqueue", popN: "Dequeue",
+		iter: func() *IterDyn { return idxIterRev[T](c.Iterator()) }}
 }
 
 type heapBox[T comparable] struct {
@@ -85,24 +107,54 @@ func (b *heapBox[T]) idxTuple(t []int) []T {
 	return vs
 }
 
+// small counts the elements that strictly precede the comparator-greatest universe element
+func (b *heapBox[T]) small(vs []T) int {
+	mx := b.sys.U[0]
+	for _, u := range b.sys.U {
+		if b.sys.Cmp(u, mx) > 0 {
+			mx = u
+		}
+	}
+	n := 0
+	for _, v := range vs {
+		if b.sys.Cmp(v, mx) < 0 {
+			n++
+		}
+	}
+	return n
+}
+
 func (b *heapBox[T]) Ops() []Op {
 	var ops []Op
 	room := b.sys.N - len(b.ref)
+	alive := 0
+	if b.sys.Skew > 0 {
+		alive = b.small(b.ref)
+	}
+	okSkew := func(vs []T) bool { return b.sys.Skew == 0 || alive+b.small(vs) <= b.sys.Skew }
 	if room >= 1 {
 		for i := range b.sys.U {
-			ops = append(ops, op("push", i))
+			if okSkew([]T{b.sys.U[i]}) {
+				ops = append(ops, op("push", i))
+			}
 		}
 	}
 	if b.a.bulk {
 		for ti, t := range b.sys.Bulk {
-			if len(t) <= room {
+			if len(t) <= room && okSkew(b.idxTuple(t)) {
 				ops = append(ops, op("bulk", ti))
 			}
 		}
 	}
 	ops = append(ops, op("pop"), op("peek"), op("clear"))
 	for ji := range b.sys.JSONs {
+		if b.sys.Skew > 0 && b.small(b.idxTuple(b.sys.JSONs[ji])) > b.sys.Skew {
+			continue
+		}
 		ops = append(ops, op("fromjson", ji))
+	}
+	for ti := range b.sys.JSONTexts {
+		ops = append(ops, op("fromjsontext", ti))
 	}
 	return ops
 }
@@ -130,6 +182,8 @@ func (b *heapBox[T]) Describe(o Op) string {
 		return "Clear()"
 	case "fromjson":
 		return fmt.Sprintf("FromJSON(%s)", b.jsonText(o.A[0]))
+	case "fromjsontext":
+		return fmt.Sprintf("FromJSON(%s)", b.sys.JSONTexts[o.A[0]])
 	}
 	return o.String()
 }
@@ -234,6 +288,14 @@ func (b *heapBox[T]) Do(o Op) *Viol {
 			return viol(tag("C06", "C12"), "mismatch", "FromJSON(%s) failed: %v", data, err)
 		}
 		b.ref = b.idxTuple(b.sys.JSONs[o.A[0]])
+	case "fromjsontext":
+		data := []byte(b.sys.JSONTexts[o.A[0]])
+		if err := b.a.from(data); err != nil {
+			return viol(tag("C06", "C12"), "mismatch", "FromJSON(%s) failed: %v", data, err)
+		}
+		if !b.LoadRef(data) {
+			panic("tool error: reference cannot decode " + string(data))
+		}
 	default:
 		panic("heap op " + o.N)
 	}
@@ -289,6 +351,19 @@ func (b *heapBox[T]) CheckState() *Viol {
 		return viol(tag("C06"), "mismatch", "iteration yields %d elements, contents have %d", i, n)
 	}
 	return pureAll(CanonOpts{}, b.a.obj, b.Readers(), tag("C06"))
+}
+
+// drainSeq pops everything and renders the exact sequence (element identity included).
+func (b *heapBox[T]) drainSeq() string {
+	var seq []T
+	for i := 0; i <= len(b.ref)+2; i++ {
+		x, ok := b.a.pop()
+		if !ok {
+			break
+		}
+		seq = append(seq, x)
+	}
+	return fmtVals(seq)
 }
 
 // drain pops everything and checks the sequence (used by the C06 nested hook on a rebuilt copy).
@@ -367,7 +442,9 @@ func (b *heapBox[T]) LoadRef(data []byte) bool {
 
 // ---- configuration ----------------------------------------------------------------
 
-func heSys(kind, cmpN string, n, pmax int, jsonLen int) *HeapSys[HE] { return heSysIDs(kind, cmpN, n, pmax, jsonLen, 2) }
+func heSys(kind, cmpN string, n, pmax int, jsonLen int) *HeapSys[HE] {
+	return heSysIDs(kind, cmpN, n, pmax, jsonLen, 2)
+}
 
 // heSysIDs: ids = number of distinguishable elements per priority (1: no ties between
 // distinguishable elements; used by the deep jobs that need many elements).
@@ -375,7 +452,7 @@ func heSysIDs(kind, cmpN string, n, pmax int, jsonLen int, ids int) *HeapSys[HE]
 	var u []HE
 	for p := 1; p <= pmax; p++ {
 		for id := 0; id < ids; id++ {
-			u = append(u, HE{p, id})
+			u = append(u, HE{p - 1, id}) // priorities start at 0: {0,0} is the zero value
 		}
 	}
 	if ids == 1 {
